@@ -25,6 +25,7 @@ def run(ctx):
     ctx.prove('props/C01.v')
     L.lockstep(ctx, [L.mon_c01])
     L.reg_sweep(ctx, L.REG_KINDS['C01'])
+    quiesce_probe(ctx)
     # removal "by dropping the object that owns it": the iterator instance records the ids it registered and
     # unregisters them in Drop; two handle clones adding a signal concurrently must not lose an id
     import c12
@@ -34,6 +35,35 @@ def run(ctx):
                             'every split point of one activity against the other + random 2-preemption and random run-length schedules; '
                             'distinct_nontrivial = distinct implementation traces in which at least two activities interleave; monitors: '
                             'guard-held snapshot released, release by a delivery, double release, action run after its removal returned')
+
+
+def quiesce_probe(ctx):
+    """real threads, a delivery that stays in its action for 0.2 - 1.5 s while another thread removes the action
+    (unregister / unregister_signal / with an iterator instance dropped first): the removal returns only after
+    the action has finished, its capture is dropped exactly once and not while it runs"""
+    if not ctx.harness(['p_quiesce']):
+        return
+    mss = [200, 700, 1500] if ctx.tier == 'quick' else [100, 200, 400, 700, 1000, 1500, 3000]
+    rc, out, _ = common.sh([common.bin_path('p_quiesce')] + [str(m) for m in mss], timeout=600)
+    rows = [l.split() for l in out.split('\n') if l.startswith('Q ')]
+    ctx.correspondence('long-delivery quiescence probe ran (p_quiesce)', rc == 0 and len(rows) == 3 * len(mss), out[-300:] if rc else None)
+    names = {'u': 'unregister(id)', 'x': 'unregister_signal', 'd': 'drop(iterator); unregister(id)'}
+    for r in rows:
+        ctx.evaluations += 1
+        how, ms = r[1], int(r[2])
+        key = {'monitor': 'quiesce', 'how': how, 'ms': ms}
+        case = {'probe': 'p_quiesce', 'row': r, 'replay': 'harness/target/debug/p_quiesce %d' % ms}
+        if len(r) != 8:
+            ctx.violation(key, '%s while a delivery stays %d ms in the action: %s' % (names[how], ms, ' '.join(r[3:])), case)
+            continue
+        still, d_ret, d_end, d_run, took = (int(x) for x in r[3:])
+        ctx.distinct.add(('quiesce', how, ms))
+        if still or d_run or d_ret != 1 or d_end != 1:
+            ctx.violation(key, '%s while a delivery stays %d ms in the action returned after %d ms: the action was %s, its capture dropped %d time(s) at return / %d at the end%s'
+                          % (names[how], ms, took, 'STILL RUNNING' if still else 'finished', d_ret, d_end, ', once WHILE it ran' if d_run else ''), case)
+        else:
+            ctx.traces += 1
+    ctx.coverage['long_delivery_cases'] = len(rows)
 
 
 def replay(ctx, path):
